@@ -31,7 +31,7 @@ FEATURES = [
 
 
 def _questions(form):
-    return [r for r in form["survey"] if not r["type"].startswith(("begin ", "end ")) and "name" in r]
+    return [r for r in form["survey"] if not r.get("type", "").startswith(("begin ", "end ")) and "name" in r and "type" in r]
 
 
 def _labelled(form):
@@ -96,7 +96,7 @@ def add_or_other(rng, form):
 
 def add_instance_label(rng, form, langs):
     """Labels / hints with an instance() path expression and a ${ref} in its predicate."""
-    lists = sorted({c["list_name"] for c in form.get("choices", [])})
+    lists = sorted({c["list_name"] for c in form.get("choices", []) if c.get("list_name")})
     if not lists:
         form.setdefault("choices", []).append({"list_name": "ilist", "name": "a1", **_lab(langs, "A")})
         form["survey"].append({"type": "select_one ilist", "name": "isel", **_lab(langs, "I")})
@@ -219,6 +219,7 @@ def gen_c14_form(rng: random.Random, feature: str | None = None, big=False) -> t
     nl = rng.choice([0, 2, 2, 3]) if not ({"sparse_itext"} & set(feats)) else rng.choice([2, 3, 4])
     langs = rng.sample(LANG_POOL, k=nl)
     form = base_form(rng, langs, big=big)
+    feats = sorted(feats, key=lambda f: f == "missing_header")  # removes columns: last
     for f in feats:
         if f == "sparse_itext":
             add_sparse_itext(rng, form, langs)
